@@ -14,7 +14,7 @@ LEVEL_TEXT = ('Cover, only-own, identity/enterprise/compliance sections and mono
               'strings). Idempotence is proved too (C18_reindex_same): running genIndex again on the same results on top of its own output gives '
               'the same keys and the same modules under every key in all four sections, for every old index with distinct keys (a Python dict); '
               'it rests on the minimality of what the compaction pass keeps (it visits shallower keys first). The model is '
-              'tied to genIndex by differential runs (exhaustive small scope + random build sequences).')
+              'tied to genIndex by differential runs (exhaustive small scope + random build sequences). What buildIndex reads back as the old index is the writer\'s business, outside the model: that an index which exists but cannot be read or decoded is not taken for no index (it used to be, and was then written over) is decided by execution, with the read faulted (partial: runtime).')
 LEVEL_NOTE = ('Trusted: Lean kernel + standard axioms, the hand-written model of genIndex up to order(), the correspondence '
               'harness, json/sorted in CPython. The order in which a status yields its OIDs is an explicit model input.')
 MODULES = ['Pysmi.Props.C18', 'Pysmi.Props.C18Reindex', 'Pysmi.Pins.SkelC18']
